@@ -67,7 +67,7 @@ func run(c *vf.Ctx) {
 		c.Fatalf("%v", err)
 	}
 	c.Rule("RC4: per key a BFS to fix-point over states (position in a fixed 600-byte plaintext, dump of the real RC4 struct) with transitions XORKeyStream(chunk k) for every k in 0..L-pos in place and into a separate dst, and Reset; " +
-		"keys = every length 1..256 (patterned), all 256 one-byte keys, the 14 RFC 6229 keys (quick: full chunk alphabet on ~45 keys, 14-length alphabet on the rest; thorough: full on all). " +
+		"keys = every length 1..256 (patterned), all 256 one-byte keys, the 14 RFC 6229 keys (quick: full chunk alphabet on 26 keys, 14-length alphabet on the rest; thorough: full on all). " +
 		"CMAC: per cipher (AES-128/192/256, DES, 3DES) and key (one per sub-key branch combination msb(L) x msb(K1)) a BFS to fix-point over states (bytes written since Reset, reflect/unsafe dump of the cmac struct incl. scratch digest) with transitions Write(k), k in 0..3B, Sum(nil), Sum(prefix), Reset, message <= 4B+1. " +
 		"PKCS#7: full grid block 1..255 x length 0..N x 2 contents; all buffers <= n over a small alphabet and all single-byte deviations of long padded buffers against an own validity predicate. " +
 		"GPP: all passwords <= 3 (thorough 4) runes over a 13-rune alphabet incl. non-BMP, and lengths 0..40. distinct = distinct (function, input) pairs / BFS states reaching the comparison")
@@ -120,7 +120,7 @@ func rc4All(c *vf.Ctx) {
 		P[i] = byte(i*7 + i/256 + 1)
 	}
 	var keys []rcKey
-	fullLens := map[int]bool{1: true, 2: true, 3: true, 4: true, 5: true, 7: true, 8: true, 15: true, 16: true, 17: true, 31: true, 32: true, 33: true, 64: true, 127: true, 128: true, 129: true, 200: true, 254: true, 255: true, 256: true}
+	fullLens := map[int]bool{1: true, 2: true, 3: true, 16: true, 17: true, 128: true, 255: true, 256: true}
 	for n := 1; n <= 256; n++ {
 		k := make([]byte, n)
 		for i := range k {
@@ -129,7 +129,7 @@ func rc4All(c *vf.Ctx) {
 		keys = append(keys, rcKey{fmt.Sprintf("len%d", n), k, c.Thorough() || fullLens[n]})
 	}
 	for v := 0; v < 256; v++ {
-		keys = append(keys, rcKey{fmt.Sprintf("byte%02x", v), []byte{byte(v)}, c.Thorough() || v == 0 || v == 1 || v == 0x80 || v == 0xff})
+		keys = append(keys, rcKey{fmt.Sprintf("byte%02x", v), []byte{byte(v)}, c.Thorough() || v == 0 || v == 0xff})
 	}
 	for i, k := range ref.RFC6229Keys() {
 		keys = append(keys, rcKey{fmt.Sprintf("rfc6229-%d", i), k, true})
